@@ -39,8 +39,7 @@ def getUtf8 (inp : Bytes) : Option (Nat × Nat) :=
     if !isCont b3 then none else
     let c := ((((((b0 &&& 0x07).toNat <<< 6) ||| (b1 &&& 0x3F).toNat) <<< 6) ||| (b2 &&& 0x3F).toNat) <<< 6) |||
       (b3 &&& 0x3F).toNat
-    -- the source has 0x1000 here (finding F11: should be 0x10000)
-    if c < 0x1000 || c > 0x10FFFF then none else some (c, 4)
+    if c < 0x10000 || c > 0x10FFFF then none else some (c, 4)
   else none
 
 /-- `ly_pututf8` -/
@@ -53,7 +52,7 @@ def putUtf8 (v : Nat) : Option Bytes :=
     if (v &&& 0xF800) == 0xD800 || (v ≥ 0xFDD0 && v ≤ 0xFDEF) then none else
     some [UInt8.ofNat (0xE0 ||| (v >>> 12)), UInt8.ofNat (0x80 ||| ((v >>> 6) &&& 0x3F)), UInt8.ofNat (0x80 ||| (v &&& 0x3F))]
   else if v < 0x10FFFE then
-    if (v &&& 0xFFE) == 0xFFE then none else
+    if (v &&& 0xFFFE) == 0xFFFE then none else
     some [UInt8.ofNat (0xF0 ||| (v >>> 18)), UInt8.ofNat (0x80 ||| ((v >>> 12) &&& 0x3F)),
           UInt8.ofNat (0x80 ||| ((v >>> 6) &&& 0x3F)), UInt8.ofNat (0x80 ||| (v &&& 0x3F))]
   else none
